@@ -75,23 +75,23 @@ def implicit_2Dx(np.ndarray phi, np.ndarray xx, np.ndarray yy,
         nu1, m12, gamma1, h1, dt, use_delj_trick):
     c_implicit_2Dx(<double*> phi.data, <double*> xx.data, <double*> yy.data, 
             nu1, m12, gamma1, h1, dt, phi.shape[0], phi.shape[1], use_delj_trick, 
-            0, phi.shape[0])
+            0, phi.shape[1])
     return phi
 def implicit_2Dy(np.ndarray phi, np.ndarray xx, np.ndarray yy,
         nu2, m21, gamma2, h2, dt, use_delj_trick):
     c_implicit_2Dy(<double*> phi.data, <double*> xx.data, <double*> yy.data,
             nu2, m21, gamma2, h2, dt, phi.shape[0], phi.shape[1], use_delj_trick, 
-            0, phi.shape[1])
+            0, phi.shape[0])
     return phi
 def implicit_precalc_2Dx(np.ndarray phi, np.ndarray ax, np.ndarray bx, 
         np.ndarray cx, dt):
     c_implicit_precalc_2Dx(<double*> phi.data, <double*> ax.data, <double*> bx.data, 
-            <double*> cx.data, dt, phi.shape[0], phi.shape[1], 0, phi.shape[0])
+            <double*> cx.data, dt, phi.shape[0], phi.shape[1], 0, phi.shape[1])
     return phi
 def implicit_precalc_2Dy(np.ndarray phi, np.ndarray ay, np.ndarray by, 
         np.ndarray cy, dt):
     c_implicit_precalc_2Dy(<double*> phi.data, <double*> ay.data, <double*> by.data, 
-            <double*> cy.data, dt, phi.shape[0], phi.shape[1], 0, phi.shape[1])
+            <double*> cy.data, dt, phi.shape[0], phi.shape[1], 0, phi.shape[0])
     return phi
 
 def implicit_3Dx(np.ndarray phi, np.ndarray xx, np.ndarray yy, np.ndarray zz,
@@ -106,29 +106,29 @@ def implicit_3Dy(np.ndarray phi, np.ndarray xx, np.ndarray yy, np.ndarray zz,
     c_implicit_3Dy(<double*> phi.data, <double*> xx.data, <double*> yy.data, <double*> zz.data,
         nu2, m21, m23, gamma2, h2, dt, 
         phi.shape[0], phi.shape[1], phi.shape[2], use_delj_trick,
-        0, phi.shape[1])
+        0, phi.shape[0])
     return phi
 def implicit_3Dz(np.ndarray phi, np.ndarray xx, np.ndarray yy, np.ndarray zz,
         nu3, m31, m32, gamma3, h3, dt, use_delj_trick):
     c_implicit_3Dz(<double*> phi.data, <double*> xx.data, <double*> yy.data, <double*> zz.data,
         nu3, m31, m32, gamma3, h3, dt, 
         phi.shape[0], phi.shape[1], phi.shape[2], use_delj_trick,
-        0, phi.shape[2])
+        0, phi.shape[0])
     return phi
 def implicit_precalc_3Dx(np.ndarray phi, np.ndarray ax, np.ndarray bx, np.ndarray cx,
         dt):
     c_implicit_precalc_3Dx(<double*> phi.data, <double*> ax.data, <double*> bx.data, <double*> cx.data,
-        dt, phi.shape[0], phi.shape[1], phi.shape[2], 0, phi.shape[0])
+        dt, phi.shape[0], phi.shape[1], phi.shape[2], 0, phi.shape[1])
     return phi
 def implicit_precalc_3Dy(np.ndarray phi, np.ndarray ay, np.ndarray by, np.ndarray cy,
         dt):
     c_implicit_precalc_3Dy(<double*> phi.data, <double*> ay.data, <double*> by.data, <double*> cy.data,
-        dt, phi.shape[0], phi.shape[1], phi.shape[2], 0, phi.shape[1])
+        dt, phi.shape[0], phi.shape[1], phi.shape[2], 0, phi.shape[0])
     return phi
 def implicit_precalc_3Dz(np.ndarray phi, np.ndarray az, np.ndarray bz, np.ndarray cz,
         dt):
     c_implicit_precalc_3Dz(<double*> phi.data, <double*> az.data, <double*> bz.data, <double*> cz.data,
-        dt, phi.shape[0], phi.shape[1], phi.shape[2], 0, phi.shape[2])
+        dt, phi.shape[0], phi.shape[1], phi.shape[2], 0, phi.shape[0])
     return phi
 
 def implicit_4Dx(np.ndarray phi, np.ndarray xx, np.ndarray yy, np.ndarray zz, np.ndarray aa,
